@@ -151,7 +151,7 @@ impl<'tcx, 'b> Cx<'tcx, 'b> {
                 relocs.iter().map(|(o, p)| format!("[{},{}]", o, esc(p))).collect::<Vec<_>>().join(",")
               )
             };
-            let bj = match bytes {
+            let bj = match &bytes {
               Some(b) => format!(",\"bytes\":[{}]", b.iter().map(|x| x.to_string()).collect::<Vec<_>>().join(",")),
               None => String::new(),
             };
@@ -255,6 +255,18 @@ impl<'tcx, 'b> Cx<'tcx, 'b> {
                 }
               }
             }
+            // the whole constant decoded by layout (tables of enums incl. Option<..> with niche tags, nested tuples)
+            let dj = match (&bytes, relocs.is_empty()) {
+              (Some(b), true) => match peeled.kind() {
+                ty::Array(..) | ty::Tuple(..) | ty::Adt(..) => match decode_const(self.tcx, self.env, peeled, b, 0, 0) {
+                  Some(j) => format!(",\"decoded\":{}", j),
+                  None => String::new(),
+                },
+                _ => String::new(),
+              },
+              _ => String::new(),
+            };
+            let sj = format!("{}{}", sj, dj);
             format!(
               "{{\"k\":\"constx\",\"ty\":{},\"repr\":{}{}{}{}}}",
               esc(&ty_str(ty)),
@@ -384,6 +396,121 @@ fn const_bytes<'tcx>(tcx: TyCtxt<'tcx>, c: &mir::Const<'tcx>) -> Option<Vec<u8>>
       let a = alloc.inner();
       let n = (*meta as usize).min(a.len());
       Some(a.inspect_with_uninit_and_ptr_outside_interpreter(0..n).to_vec())
+    }
+    _ => None,
+  }
+}
+
+/// Decode `bytes[off..]` as a value of type `ty` using the computed layouts (field offsets, enum tags incl. niche
+/// encodings).  -> JSON, or None when the type contains anything but integers, bools, arrays, tuples, structs and enums
+/// of those (pointers, floats, unions ...).  {"i":n,"ty":"u8"} | {"arr":[..]} | {"tup":[..]} |
+/// {"adt":path,"variant":idx,"vname":name,"fields":[..]}
+fn decode_const<'tcx>(tcx: TyCtxt<'tcx>, env: TypingEnv<'tcx>, ty: Ty<'tcx>, bytes: &[u8], off: usize, depth: usize) -> Option<String> {
+  use rustc_abi::{TagEncoding, Variants};
+  use rustc_middle::ty::layout::LayoutCx;
+  if depth > 6 {
+    return None;
+  }
+  let layout = tcx.layout_of(env.as_query_input(ty)).ok()?;
+  let size = layout.size.bytes() as usize;
+  if off + size > bytes.len() {
+    return None;
+  }
+  let read = |o: usize, n: usize| -> Option<u128> {
+    if n > 16 || o + n > bytes.len() {
+      return None;
+    }
+    let mut v: u128 = 0;
+    for k in 0..n {
+      v |= (bytes[o + k] as u128) << (8 * k);
+    }
+    Some(v)
+  };
+  match ty.kind() {
+    ty::Bool | ty::Uint(_) | ty::Int(_) | ty::Char => {
+      let v = read(off, size)?;
+      Some(format!("{{\"i\":{},\"ty\":{}}}", v, esc(&ty_str(ty))))
+    }
+    ty::Array(et, _) => {
+      let el = tcx.layout_of(env.as_query_input(*et)).ok()?;
+      let es = el.size.bytes() as usize;
+      if es == 0 || size % es != 0 || size / es > 4096 {
+        return None;
+      }
+      let mut items = Vec::new();
+      for k in 0..(size / es) {
+        items.push(decode_const(tcx, env, *et, bytes, off + k * es, depth + 1)?);
+      }
+      Some(format!("{{\"arr\":[{}]}}", items.join(",")))
+    }
+    ty::Tuple(tys) => {
+      let mut items = Vec::new();
+      for (i, fty) in tys.iter().enumerate() {
+        items.push(decode_const(tcx, env, fty, bytes, off + layout.fields.offset(i).bytes() as usize, depth + 1)?);
+      }
+      Some(format!("{{\"tup\":[{}]}}", items.join(",")))
+    }
+    ty::Adt(adt, args) if adt.is_struct() => {
+      let mut items = Vec::new();
+      for (i, f) in adt.non_enum_variant().fields.iter().enumerate() {
+        let fty = f.ty(tcx, args);
+        items.push(decode_const(tcx, env, fty, bytes, off + layout.fields.offset(i).bytes() as usize, depth + 1)?);
+      }
+      let name = tcx.def_path_str(adt.did());
+      Some(format!(
+        "{{\"adt\":{},\"variant\":0,\"vname\":{},\"fields\":[{}]}}",
+        esc(&name),
+        esc(name.rsplit("::").next().unwrap_or("")),
+        items.join(",")
+      ))
+    }
+    ty::Adt(adt, args) if adt.is_enum() => {
+      let vidx = match &layout.variants {
+        Variants::Single { index } => *index,
+        Variants::Multiple { tag, tag_encoding, tag_field, .. } => {
+          let tsize = tag.size(&tcx).bytes() as usize;
+          let toff = off + layout.fields.offset((*tag_field).into()).bytes() as usize;
+          let tv = read(toff, tsize)?;
+          let mask: u128 = if tsize >= 16 { u128::MAX } else { (1u128 << (8 * tsize)) - 1 };
+          match tag_encoding {
+            TagEncoding::Direct => {
+              let mut found = None;
+              for (vi, d) in adt.discriminants(tcx) {
+                if (d.val & mask) == tv {
+                  found = Some(vi);
+                }
+              }
+              found?
+            }
+            TagEncoding::Niche { untagged_variant, niche_variants, niche_start } => {
+              let rel = tv.wrapping_sub(*niche_start) & mask;
+              let lo = niche_variants.start().as_u32() as u128;
+              let hi = niche_variants.end().as_u32() as u128;
+              if rel <= hi - lo {
+                rustc_abi::VariantIdx::from_u32((lo + rel) as u32)
+              } else {
+                *untagged_variant
+              }
+            }
+          }
+        }
+        _ => return None,
+      };
+      let cx = LayoutCx::new(tcx, env);
+      let vl = layout.for_variant(&cx, vidx);
+      let vdef = adt.variant(vidx);
+      let mut items = Vec::new();
+      for (i, f) in vdef.fields.iter().enumerate() {
+        let fty = f.ty(tcx, args);
+        items.push(decode_const(tcx, env, fty, bytes, off + vl.fields.offset(i).bytes() as usize, depth + 1)?);
+      }
+      Some(format!(
+        "{{\"adt\":{},\"variant\":{},\"vname\":{},\"fields\":[{}]}}",
+        esc(&tcx.def_path_str(adt.did())),
+        vidx.as_u32(),
+        esc(&vdef.name.to_string()),
+        items.join(",")
+      ))
     }
     _ => None,
   }
